@@ -30,6 +30,9 @@ type Config struct {
 	TextAsBytes bool `json:"text_as_bytes"`
 	// BoolAsInt: bools are stored and delivered as int64 0/1 (SQLite style).
 	BoolAsInt bool `json:"bool_as_int"`
+	// FloatAsText: floats are stored and delivered as decimal text (a NUMERIC
+	// column of a driver that returns text), to be read with StringToFloat.
+	FloatAsText bool `json:"float_as_text"`
 	// Placeholder/escape dialect the statement parser accepts.
 	Escape       rune `json:"escape"`
 	Incrementing bool `json:"incrementing"`
@@ -258,6 +261,9 @@ func (d *DB) exec(q string, args []driver.Value, via string) (driver.Result, err
 			} else {
 				a = int64(0)
 			}
+		}
+		if fv, ok := a.(float64); ok && d.Cfg.FloatAsText {
+			a = strconv.FormatFloat(fv, 'g', -1, 64)
 		}
 		cp[i] = a
 	}
